@@ -222,12 +222,13 @@ type c36Run struct {
 	closedLocal bool
 	noQuiesce   bool
 
-	live    []*c36Chan
-	closed  []*c36Chan
-	pending []uint32 // Go ids of local opens not yet answered
-	nextPID uint32
-	usedPID []uint32
-	stats   c36Stats
+	live        []*c36Chan
+	closed      []*c36Chan
+	pending     []uint32 // Go ids of local opens not yet answered
+	pendingData map[uint32][]byte
+	nextPID     uint32
+	usedPID     []uint32
+	stats       c36Stats
 }
 
 type c36OpenRes struct {
@@ -547,7 +548,11 @@ func runC36(p *c36Plan) (string, c36Stats, error) {
 		return n
 	}
 
+	curStep := -1
 	finish := func(v string, e error) (string, c36Stats, error) {
+		if v != "" && curStep >= 0 {
+			v = fmt.Sprintf("step %d (%s): %s", curStep, p.Steps[curStep].Op, v)
+		}
 		// the connection ends: every channel and request stream must be closed, every call must return
 		s.closeAll()
 		res := r.watch.Wait(r.all.doneChan())
@@ -573,6 +578,7 @@ func runC36(p *c36Plan) (string, c36Stats, error) {
 
 	for si := range p.Steps {
 		st := &p.Steps[si]
+		curStep = si
 		r.stats.steps++
 		mustEnd, mustLive := false, false
 		r.noQuiesce = false
@@ -655,11 +661,13 @@ func runC36(p *c36Plan) (string, c36Stats, error) {
 			}
 			r.mu.Lock()
 			if len(r.goOpens) != nopen+1 {
+				nowOpens := len(r.goOpens) - nopen
 				r.mu.Unlock()
 				gs, dump := mx.Snapshot()
 				_, notParked := mx.AllParked(gs)
 				writeDump("C36-lopen", dump)
-				return finish(fmt.Sprintf("OpenChannel did not send exactly one CHANNEL_OPEN (%d new; goroutines not at rest=%v; result ready=%v)", len(r.goOpens)-nopen, notParked, len(res)), nil)
+				writeDump("C36-lopen-quiesce", r.watch.LastDump)
+				return finish(fmt.Sprintf("OpenChannel did not send exactly one CHANNEL_OPEN (%d new at the barrier, %d now; goroutines not at rest=%v; result ready=%v)", nowOpens, len(r.goOpens)-nopen, notParked, len(res)), nil)
 			}
 			gid := r.goOpens[nopen]
 			r.mu.Unlock()
@@ -712,6 +720,7 @@ func runC36(p *c36Plan) (string, c36Stats, error) {
 					}
 				}
 				resc := r.lopenRes[idx]
+				defer delete(r.pendingData, id)
 				r.pending = append(r.pending[:idx], r.pending[idx+1:]...)
 				r.lopenRes = append(r.lopenRes[:idx], r.lopenRes[idx+1:]...)
 				select {
@@ -721,6 +730,7 @@ func runC36(p *c36Plan) (string, c36Stats, error) {
 							return finish(fmt.Sprintf("OpenChannel failed although the peer confirmed it: %v", res.err), nil)
 						}
 						nc := &c36Chan{goID: id, peerID: pid, ch: res.ch, read: res.rd}
+						nc.sent.Write(r.pendingData[id])
 						r.live = append(r.live, nc)
 					} else if res.err == nil {
 						return finish("OpenChannel succeeded although the peer refused it", nil)
@@ -778,6 +788,14 @@ func runC36(p *c36Plan) (string, c36Stats, error) {
 			if okData && st.A == 0 && c != nil {
 				c.sent.Write(payload)
 				r.stats.dataBytes += len(payload)
+			}
+			if kind == "pending" && st.A == 0 && st.S == "ok" {
+				// data for a channel whose open is not answered yet is buffered by the package
+				// and read by the application once the channel exists
+				if r.pendingData == nil {
+					r.pendingData = map[uint32][]byte{}
+				}
+				r.pendingData[id] = append(r.pendingData[id], payload...)
 			}
 			continue
 		case "adjust":
@@ -1128,6 +1146,7 @@ func runC36(p *c36Plan) (string, c36Stats, error) {
 		}
 	}
 	r.stats.ended = "end of script"
+	curStep = -1
 	return finish("", nil)
 }
 
